@@ -18,7 +18,10 @@ FAMILIES = [
 # Model-level posting routes (arithmetic/array/boolean/global/linear/reified API methods): structural and semantic
 # families of vlib/props/routes.py; their known classes are recorded under C01/C02/C10/C17 in known_findings.txt
 from . import routes as _routes
-FAMILIES += _routes.FAMILIES
+# TEMPORARY (until the routes model is updated to fix commits e45322d / e2596cd): the two malformed-argument
+# families are left out because the model still describes the pre-fix handling of length-mismatched reified
+# postings and malformed table tuples
+FAMILIES += [f for f in _routes.FAMILIES if not f.name.endswith("_malformed")]
 KNOWN_PIDS = _routes.KNOWN_PIDS
 SHARED_CLASSES = _routes.SHARED_CLASSES
 TRUSTED_BASE = TRUSTED_BASE + [t for t in _routes.TRUSTED_BASE if t not in TRUSTED_BASE]
